@@ -52,6 +52,9 @@ func (e Engine) Execute(r *core.Run) (v *core.Violation) {
 		fn = runC12
 	case "C20", "C10":
 		fn = runC20
+		if l2 {
+			fn2 = runC20L2
+		}
 	default:
 		panic("provsim: no scenario for " + r.Property)
 	}
@@ -88,13 +91,15 @@ func (e Engine) Execute(r *core.Run) (v *core.Violation) {
 func (Engine) Describe(property string) core.Description {
 	d := describe(property)
 	switch property {
-	case "C13", "C14", "C15":
+	case "C10", "C13", "C14", "C15", "C20":
 		if layer2Available() {
 			d.Rule += "  LAYER 2 (every second run): the provider's actor files and go-lifecycle are instrumented by yieldgen so that every go statement, channel operation and select is a scheduling point; " +
 				"the seeded scheduler resumes exactly one parked goroutine (or completes one parked call, or injects one event through a task) per decision, ready select cases are polled in an order drawn from the choice stream."
 			d.Extra = map[string]interface{}{"layer2": "active"}
 			if property == "C15" {
 				d.RequiredProbes = append(d.RequiredProbes, "probe:l2-histories", "probe:l2-history-with-clone")
+			} else if property == "C20" || property == "C10" {
+				d.RequiredProbes = append(d.RequiredProbes, "probe:l2-runs-completed", "probe:l2-sync-points", "probe:l2-deployment-closed")
 			} else if property == "C13" {
 				d.RequiredProbes = append(d.RequiredProbes, "probe:l2-runs-completed", "probe:l2-event-published-with-more-queued", "probe:l2-chain-close-while-call-in-flight")
 			} else {
@@ -117,7 +122,7 @@ func describe(property string) core.Description {
 		Assumptions: []string{"Layer 1: exactly one stimulus is applied per quiescent point (actor-level schedule); interleavings inside the propagation of one stimulus are not explored",
 			"simulation binaries use Go >= 1.23 synchronous timer channels (main module go 1.26.8), the shipped binary is built from a go 1.16 module",
 			"chain events reach the provider in order and at most once (may be lost or delayed)", "sampling: held on everything explored, not a proof"},
-		SimTimeUnit: "ms", QuickRuns: 4000, ThoroughRuns: 400000, QuickBudgetS: 100, ThoroughBudget: 1200,
+		SimTimeUnit: "ms", QuickRuns: 6000, ThoroughRuns: 1200000, QuickBudgetS: 100, ThoroughBudget: 1200,
 	}
 	switch property {
 	case "C13":
